@@ -30,7 +30,7 @@ VARIABLES t, i
 
 ScnOf(j, D) == [hosts |-> j.hosts, conts |-> j.conts, inst |-> j.inst, paths |-> j.paths,
                 data |-> j.data, kidx |-> SetOf(j.kidx), allpaths |-> j.allpaths, defects |-> D,
-                cpaths |-> [c \in DOMAIN j.cpaths |-> j.cpaths[c]],
+                cpaths |-> [c \in DOMAIN j.cpaths |-> j.cpaths[c]], retries |-> j.retries,
                 ext |-> [srv |-> j.ext.srv, plc |-> j.ext.plc, sch |-> j.ext.sch,
                          sproot |-> j.ext.sproot, iorder |-> j.ext.iorder,
                          fin |-> j.ext.fin, plcp |-> j.ext.plcp,
@@ -49,6 +49,7 @@ CanonPost(S, j) ==
    proot  |-> j.proot,
    fin    |-> [a \in DOMAIN S.paths |-> j.fin[a]],
    pnext  |-> j.pnext,
+   rnext  |-> j.rnext,
    linger |-> SetOf(j.linger)]
 
 (* the ZooKeeper call the request in flight on h is about to make (the thread *)
@@ -61,6 +62,7 @@ Proj(S, s) == [nodes |-> s.nodes, reg |-> s.reg, queue |-> s.queue, active |-> s
                anext |-> IF InACall(s) THEN <<ACallDesc(S, s).op, ACallDesc(S, s).path>> ELSE <<>>,
                sch |-> s.sch, plc |-> s.plc, proot |-> s.proot, fin |-> s.fin,
                pnext |-> IF InPCall(s) THEN <<PCallDesc(S, s).op, PCallDesc(S, s).kind>> ELSE <<>>,
+               rnext |-> IF InRCall(s) THEN <<RCallDesc(S, s).op, RCallDesc(S, s).path>> ELSE <<>>,
                linger |-> s.linger]
 
 FiredOf(line) == IF "fired" \in DOMAIN line THEN line.fired ELSE <<>>
@@ -75,13 +77,15 @@ FiredHostsOk(pre, line) ==
 
 (* the host of the line (reap and helper lines have none: any host will do) *)
 HostOf(S, line) ==
-  IF "h" \in DOMAIN line /\ line.ev \notin {"abegin", "place", "withdraw", "pbegin"}
+  IF "h" \in DOMAIN line /\ line.ev \notin {"abegin", "place", "withdraw", "pbegin", "rbegin"}
   THEN line.h ELSE S.hosts[1]
 
 (* lines of a helper run (extension) *)
 AEvents == {"abegin", "acall", "aend"}
 (* lines of the scheduler's placement and of a publication (trace/app/zk.py) *)
 UEvents == {"place", "withdraw", "rmroot", "pbegin", "pcall", "pend"}
+(* lines of a registration through EndpointPresence.register_xxx *)
+REvents == {"rbegin", "rcall", "rend"}
 
 (* the model's step for this line: [ok, st] *)
 Exp(S, pre, line) ==
@@ -156,6 +160,16 @@ Exp(S, pre, line) ==
          THEN [ok |-> TRUE, st |-> PCallDo(S, pre)] ELSE bad
     [] line.ev = "pend" ->
          IF CanPEnd(pre) /\ line.res = "ok" THEN [ok |-> TRUE, st |-> PEndDo(pre)] ELSE bad
+    [] line.ev = "rbegin" ->
+         IF pre.rrun.ph = "idle" /\ line.h \in HostSet(S) /\ line.c \in ContSet(S)
+            /\ line.kind \in RegKinds /\ line.s = RegSess(pre.nreg + 1)
+         THEN [ok |-> TRUE, st |-> RegBeginDo(S, pre, line.h, line.c, line.kind)] ELSE bad
+    [] line.ev = "rcall" ->
+         IF /\ InRCall(pre) /\ pre.rrun.s = line.s
+            /\ RCallDesc(S, pre) = [op |-> line.op, path |-> line.path, res |-> line.res]
+         THEN [ok |-> TRUE, st |-> RCallDo(S, pre)] ELSE bad
+    [] line.ev = "rend" ->
+         IF CanREnd(pre) /\ pre.rrun.res = line.res THEN [ok |-> TRUE, st |-> REndDo(pre)] ELSE bad
     [] line.ev = "restart" ->
          IF CanRestart(S, pre, h, line.rord) /\ line.s = pre.nsess
          THEN [ok |-> TRUE, st |-> RestartDo(S, pre, h, line.rord)] ELSE bad
@@ -205,8 +219,22 @@ Resync(S, pre, line, post) ==
                  [q \in DOMAIN kept \cup won |-> IF q \in won THEN line.c ELSE kept[q]]],
               !.watches = {w \in pre.watches : /\ w.p \in DOMAIN post.nodes
                                                /\ ~(line.ev \in {"expire", "crash"} /\ w.h = h)},
-              !.pc[h] = IF line.ev \in AEvents \cup UEvents THEN pre.pc[h] ELSE pc,
-              !.fs[h] = IF line.ev \in AEvents \cup UEvents THEN pre.fs[h] ELSE fs,
+              !.pc[h] = IF line.ev \in AEvents \cup UEvents \cup REvents THEN pre.pc[h] ELSE pc,
+              !.fs[h] = IF line.ev \in AEvents \cup UEvents \cup REvents THEN pre.fs[h] ELSE fs,
+              \* observer of the registration runs: who ran, who reported success
+              !.rrun = IF line.ev = "rend" THEN NoReg
+                       ELSE IF line.ev = "rbegin"
+                       THEN [NoReg EXCEPT !.ph = "lost", !.s = line.s, !.h = line.h, !.c = line.c,
+                                          !.kind = line.kind]
+                       ELSE IF line.ev = "rcall" THEN [pre.rrun EXCEPT !.ph = "lost"]
+                       ELSE pre.rrun,
+              !.nreg = IF line.ev = "rbegin" THEN pre.nreg + 1 ELSE pre.nreg,
+              !.regd = IF line.ev = "rend" /\ line.res = "ok" /\ pre.rrun.c \in ContSet(S)
+                          /\ pre.rrun.kind \in RegKinds
+                       THEN pre.regd \cup {[s |-> pre.rrun.s, h |-> pre.rrun.h, c |-> pre.rrun.c,
+                                            kind |-> pre.rrun.kind]}
+                       ELSE IF line.ev = "reap" THEN {r \in pre.regd : r.s # line.s}
+                       ELSE pre.regd,
               !.sch = post.sch, !.plc = post.plc, !.proot = post.proot, !.fin = post.fin,
               !.pub = IF line.ev = "pend" THEN NoPub
                       ELSE IF line.ev = "pbegin"
@@ -378,6 +406,29 @@ PubVerdict(S, pre, line, post, explained) ==
         \cup E("unsched.stale", line.op = "exists" /\ line.pk = "placement" /\ ~line.found)
         \cup E("unsched.deleted", hits # {})]
 
+(* C17.ownsAfterRegister / C17.keptAfterExpire, from the logged node table:    *)
+(* when EndpointPresence.register_xxx has returned (rend, res ok), every node  *)
+(* it was to register exists and its owner is the CALLER's session; and after  *)
+(* any session expired, that is still so for every run that reported success   *)
+(* and whose session is alive.                                                 *)
+OwnedIn(S, nodes, r) ==
+  \A k \in Range(RegPaths(S, r.c, r.kind)) :
+     LET p == CPaths(S, r.c)[k] IN p \in DOMAIN nodes /\ nodes[p].o = r.s
+
+RegVerdict(S, pre, line, post, explained) ==
+  LET lost == pre.rrun.ph = "lost"
+      step == F("ext.register.step", explained \/ (lost /\ line.ev # "rbegin"))
+      r == pre.rrun IN
+  IF line.ev = "rend"
+  THEN [fail |-> step \cup F("C17.ownsAfterRegister",
+                             line.res = "ok" /\ r.c \in ContSet(S) /\ r.kind \in RegKinds
+                                => OwnedIn(S, post.nodes, r)),
+        ex |-> E("register", TRUE) \cup E("C17", line.res = "ok")
+               \cup E("register.waited", r.ph = "end" /\ line.res = "ok")]
+  ELSE [fail |-> step \cup F("C17.ephemeral", StateEph(post)),
+        ex |-> E("register", TRUE)
+               \cup E("register.wait", line.ev = "rcall" /\ line.op = "create" /\ line.res = "NodeExists")]
+
 (* a trace with helper runs lies outside the statement of C17: from the first *)
 (* helper line on, the C17 clauses are reported as extension clauses          *)
 (* A service's set / delete of a foreign node on such a trace is the          *)
@@ -434,6 +485,12 @@ Verdict0(S, pre, line, post, explained) ==
 Verdict(S, pre, line, post, explained) ==
   IF line.ev \in AEvents THEN HelperVerdict(S, pre, line, post, explained)
   ELSE IF line.ev \in UEvents THEN PubVerdict(S, pre, line, post, explained)
+  ELSE IF line.ev \in REvents THEN RegVerdict(S, pre, line, post, explained)
+  ELSE IF line.ev = "reap" /\ pre.regd # {}
+  THEN LET v == Verdict0(S, pre, line, post, explained) IN
+       [fail |-> v.fail \cup F("C17.keptAfterExpire",
+                               \A r \in pre.regd : r.s # line.s => OwnedIn(S, post.nodes, r)),
+        ex |-> v.ex \cup {"C17", "register.expire"}]
   ELSE LET v == Verdict0(S, pre, line, post, explained) IN
        IF pre.nkill = 0 THEN v
        ELSE [fail |-> {IF f = "C17.noForeign" /\ ~Windowed(pre, line) THEN f ELSE ExtName(f) : f \in v.fail},
